@@ -1027,6 +1027,37 @@ fn emit_case(out: &mut Out, sub: &str, spec_of: &dyn Fn(usize) -> String, lines:
     }
 }
 
+/// hand-written scenarios that always run: two subnets, one router
+fn fixed_cases() -> Vec<Vec<String>> {
+    let topo = |mtus: &str| -> Vec<String> {
+        vec![
+            format!("topo nets=2 mtus={} lat=1000,1000 clean=1", mtus),
+            "host 0 net=0 mac=0 ip=10.0.0.10 mask=24 gw=10.0.0.1 port=5000".into(),
+            "host 1 net=1 mac=0 ip=10.0.1.10 mask=24 gw=10.0.1.1 port=5001".into(),
+            "router 2 slots=0:1:10.0.0.1,1:1:10.0.1.1 routes=10.0.0.0/24/-/0;10.0.1.0/24/-/1".into(),
+        ]
+    };
+    let raw = |tok: u32, ttl: u8, dlen: usize, expect: &str| -> String {
+        let mut data = vec![(tok >> 8) as u8, tok as u8];
+        data.resize(dlen, 0x5a);
+        let src = parse_addr("10.0.0.10").unwrap();
+        let dst = parse_addr("10.0.1.10").unwrap();
+        let mut pay = build_udp_header(Ipv4Address::from(src), 4000, Ipv4Address::from(dst), 5001, data.iter().cloned(), data.len()).unwrap();
+        pay.extend_from_slice(&data);
+        format!("send tok={} h=0 kind=raw src=10.0.0.10 dst=10.0.1.10 ttl={} proto=17 id={} tos=0 flags=0 off=0 pay={} expect={}", tok, ttl, 1000 + tok, hex(&pay), expect)
+    };
+    // F-C16-1: TTL 0, 1, 2 in turn; only the last one may (and must) arrive
+    let mut a = topo("65535,65535");
+    a.push(raw(1, 0, 4, "-"));
+    a.push(raw(2, 1, 4, "-"));
+    a.push(raw(3, 2, 4, "1"));
+    // F-C16-2: a 100-byte datagram from the 1500-byte network towards the 60-byte network
+    let mut b = topo("1500,60");
+    b.push(raw(1, 9, 4, "1"));
+    b.push(raw(2, 9, 72, "-"));
+    vec![a, b]
+}
+
 pub fn run(args: &Args) {
     if is_worker(args) {
         worker_loop(worker_case);
@@ -1059,12 +1090,24 @@ pub fn run(args: &Args) {
         out.finish(RULE);
         return;
     }
+    // fixed scenarios first: the TTL-0 datagram of F-C16-1 (fixed), the MTU step of F-C16-2 (known)
+    let mut ci = 0u64;
+    for lines in fixed_cases() {
+        out.begin_case(ci);
+        let body = lines.join("\n");
+        let spec_of = |upto: usize| format!("replay {}\n{}", upto, body);
+        let first = run_cases(&args.prop, &[spec_of(usize::MAX)], 1, 1, 120).into_iter().next().unwrap();
+        emit_case(&mut out, &args.prop, &spec_of, &lines, first);
+        out.end_case();
+        ci += 1;
+    }
     let mut rng = Rng::new(args.seed);
     let seeds: Vec<u64> = (0..args.cases).map(|_| rng.next() >> 1).collect();
     let specs: Vec<String> = seeds.iter().map(|s| format!("gen {} {}", s, usize::MAX)).collect();
     let outcomes = run_cases(&args.prop, &specs, default_workers(), 20, 120);
-    for (ci, (o, seed)) in outcomes.into_iter().zip(seeds.iter()).enumerate() {
-        out.begin_case(ci as u64);
+    for (o, seed) in outcomes.into_iter().zip(seeds.iter()) {
+        out.begin_case(ci);
+        ci += 1;
         let lines = gen_case(&mut Rng::new(*seed)).to_lines();
         let spec_of = |upto: usize| format!("gen {} {}", seed, upto);
         emit_case(&mut out, &args.prop, &spec_of, &lines, o);
